@@ -24,7 +24,7 @@ TIMEOUT = {"quick": 300, "thorough": 1200}
 
 
 def cases(tier, seed):
-    n = 24 if tier == "quick" else 240
+    n = 72 if tier == "quick" else 400
     cs = workload.reader_population(n, seed)
     for i, c in enumerate(cs):
         c["kind"] = "gen"
